@@ -51,7 +51,7 @@ ASSUMPTIONS = [
 ]
 
 POLICIES = ["LRU", "LFU", "TTL", "FIFO", "Random", "SLRU", "SampledLRU", "Clock", "TwoQ"]
-OPS = ["get", "get", "get", "put", "put", "put", "del", "inv", "invall", "flush"]
+OPS = ["get", "get", "get", "put", "put", "put", "del", "inv", "invall", "flush", "flush"]
 
 
 def _clamp(x, lo, hi):
@@ -121,7 +121,7 @@ def cached_strategy(tier):
         "policy": st.integers(0, 8),
         "wt": st.booleans(),
         "cap": st.sampled_from([1, 1, 2, 2, 3]),
-        "nkeys": st.integers(2, 5),
+        "nkeys": st.sampled_from([2, 2, 3, 3, 4, 5]),
         "rl": st.integers(1, 6), "wl": st.integers(1, 6), "cl": st.integers(0, 1),
         "ttl": st.sampled_from([2, 8, 40]),
         "seed": st.integers(0, 50),
@@ -358,7 +358,12 @@ def run_cached(case, obl, safe=False):
         r.nontrivial = stats["evictions"] >= 1 and (overlap or not multi)
     else:
         r.nontrivial = bool(dirty_evicted) or fill_overlap
+    put_in_writeback = sum(1 for k in keys for w in writes[k] for b in backing_writes
+                           if w.src is not None and w.src.op == "put" and not wt and b[0] == k and b[2] < w.src.ss
+                           and (b[3] is None or w.src.ss < b[3]))
+    r.target = float(3 * min(put_in_writeback, 3) + 2 * min(len(dirty_evicted), 3) + (2 if fill_overlap else 0) + (1 if overlap else 0))
     r.labels += [pol_name, mode, "evict" if stats["evictions"] else "no-evict",
+                 "put-during-writeback" if put_in_writeback else "no-put-during-writeback",
                  "dirty-evict" if dirty_evicted else "no-dirty-evict", "fill-overlap" if fill_overlap else "no-fill-overlap",
                  "overlap" if overlap else "sequential"]
     r.observed = {"ops": len(log), "events": probe.n}
@@ -618,10 +623,20 @@ def ex_softttl(case, obl="softttl"):
         cached_at = getattr(getattr(ent, "cached_at", None), "nanoseconds", None)
         rec.val = None if cached_at is None else sc.now.nanoseconds - cached_at      # age of the held entry at read start
         before = sc.stats.coalesced_requests
+
+        def finish(value):
+            # the very entry that was already expired when the read began is still held and its value is what was returned
+            # (a fetch would have stored a fresh entry): the reply came from an entry older than hard_ttl
+            e2 = getattr(sc, "_cache", {}).get(rec.key)
+            at2 = getattr(getattr(e2, "cached_at", None), "nanoseconds", None)
+            if (value is not None and cached_at is not None and at2 == cached_at and e2.value == value
+                    and rec.val >= hard * TICK):
+                rec.exc = "expired-entry"
+            return value
         try:
             y = next(gen)
         except StopIteration as e:
-            return e.value
+            return finish(e.value)
         if sc.stats.coalesced_requests > before:
             rec.extra = "coalesced"
         while True:
@@ -629,7 +644,7 @@ def ex_softttl(case, obl="softttl"):
             try:
                 y = gen.send(sent)
             except StopIteration as e:
-                return e.value
+                return finish(e.value)
 
     def run_op(rec):
         op, k = rec.op, rec.key
@@ -685,7 +700,10 @@ def ex_softttl(case, obl="softttl"):
     for g in log:
         if g.op != "get" or not g.done():
             continue
-        if g.val is not None and g.val >= hard * TICK and g.end - g.start < rl * TICK and g.res is not None:
+        if g.exc == "expired-entry":
+            add(f"{P}/{obl}/{'coalesced-read/' if g.extra == 'coalesced' else ''}expired-entry-served",
+                f"{g!r}: the held entry was {g.val / TICK:g} ticks old when the read began (hard_ttl {hard}) and is what the read returned")
+        elif g.val is not None and g.val >= hard * TICK and g.end - g.start < rl * TICK and g.res is not None:
             # module table: "Expired: age >= hard_ttl -> block until fresh data fetched"; a reply faster than a backing
             # read can only have come from the expired entry
             add(f"{P}/{obl}/expired-entry-served-from-cache",
@@ -849,7 +867,7 @@ def ex_writepolicy(case, obl="writepolicy"):
 
 # =============================================================================== registry
 OBLIGATIONS = [
-    Obligation("cached", cached_strategy, ex_cached, {"quick": 3000, "thorough": 120000},
+    Obligation("cached", cached_strategy, ex_cached, {"quick": 4000, "thorough": 160000},
                "CachedStore with one of the 9 eviction policies, write-through or write-back, capacity 1..3 over 2..5 keys, "
                "backing latencies 1..6 ticks; 1..3 workers with start offsets 0..8 ticks and gaps 0..5 ticks issue get/put/"
                "delete/invalidate/invalidate_all/flush so that operations overlap; a closing worker flushes and reads all keys; "
